@@ -91,6 +91,7 @@ CHECKS['C04'] = dict(
         U('lib', 'TestVerifC04_LibOrder', q(6400, 16), q(128000, 16, cap=1800)),
         U('lib', 'TestVerifC04_LibInputOrder', q(4800, 16), q(96000, 16, cap=1800)),
         U('inpkg', 'TestVerifC04_TiebreakMeaning', q(), q(), pkg='src'),
+        U('inpkg', 'TestVerifC04_TiebreakKeys', q(48000, 16), q(960000, 16, cap=1800), pkg='src'),
         U('inpkg', 'TestVerifC04_ScanMerge', q(8000, 16), q(160000, 16, cap=1800), pkg='src'),
     ])
 
@@ -113,6 +114,7 @@ CHECKS['C06'] = dict(
         U('inpkg', 'TestVerifC06_FeedSmall', q(32000, 16), q(640000, 16, cap=1800), pkg='src'),
         U('inpkg', 'TestVerifC06_FeedLarge', q(480, 16), q(9600, 16, cap=1800), pkg='src'),
         U('inpkg', 'TestVerifC06_ChunkListMachine', q(8000, 16), q(160000, 16, cap=1800), pkg='src'),
+        U('proc', 'TestVerifC06_ProcHeaderTailReload', q(160, 16, cap=600), q(3200, 16, cap=2400), needs_fzf=True),
     ])
 
 CHECKS['C07'] = dict(
@@ -193,8 +195,10 @@ CHECKS['C17'] = dict(
         U('inpkg', 'TestVerifC17_BindRoundTrip', q(48000, 16), q(960000, 16, cap=1800), pkg='src'),
         U('inpkg', 'TestVerifC17_Totality', q(32000, 16), q(640000, 16, cap=1800), pkg='src'),
         U('inpkg', 'TestVerifC17_LastWins', q(16000, 16), q(320000, 16, cap=1800), pkg='src'),
+        U('inpkg', 'TestVerifC17_LastWinsVocabulary', q(48000, 16), q(960000, 16, cap=1800), pkg='src'),
         U('inpkg', 'TestVerifC17_EnvPrecedence', q(8000, 8), q(160000, 16, cap=1800), pkg='src'),
         U('inpkg', 'TestVerifC17_SubParsers', q(64000, 16), q(1600000, 16, cap=1800), pkg='src'),
+        U('proc', 'TestVerifC17_ProcRejects', q(1600, 16, cap=600), q(32000, 16, cap=2400), needs_fzf=True),
     ])
 
 CHECKS['C16'] = dict(
@@ -209,6 +213,10 @@ CHECKS['C16'] = dict(
         U('inpkg', 'TestVerifC16_RequestGrammar', q(48000, 16), q(960000, 16, cap=1800), pkg='src'),
         U('inpkg', 'TestVerifC16_ArbitraryBytes', q(24000, 16), q(480000, 16, cap=1800), pkg='src'),
         U('inpkg', 'TestVerifC16_ListenAddress', q(2000, 1), q(20000, 1), pkg='src'),
+        U('proc', 'TestVerifC16_ProcNonLocal', q(cap=300), q(cap=300), needs_fzf=True),
+        U('proc', 'TestVerifC16_ProcUnsafeFilter', q(320, 16, cap=600), q(1600, 16, cap=2400), needs_fzf=True),
+        U('proc', 'TestVerifC16_ProcLive', q(160, 16, cap=900), q(3200, 16, cap=3000), needs_fzf=True),
+        U('proc', 'TestVerifC16_ProcPostEqualsBind', q(96, 16, cap=900), q(1600, 16, cap=3000), needs_fzf=True),
     ])
 
 CHECKS['C19'] = dict(
